@@ -102,4 +102,22 @@ theorem reduced_rowMajor (w h : Nat) (src : Nat → Nat → RGB) :
   simp only [reduced, take_rowMajor w src (truncHeight h) h (truncHeight_le h), map_rowMajor]
   rfl
 
+/-! ## the subsampling threshold -/
+
+/-- for every view whose kept part has fewer than `2^32 · 25600` pixels: the palette extraction walks all
+pixels exactly when `w · (h/6·6) / (256 · 100) < 2`, i.e. below 51200 pixels -/
+theorem subsampled_iff (w h : Nat) (hbig : w * truncHeight h < 2 ^ 32 * 25600) :
+    subsampled w h = false ↔ w * truncHeight h / (256 * 100) < 2 := by
+  have hd : min (256 * 100) (2 ^ 64 - 1) = 25600 := by decide
+  have hlt : truncHeight h * w / 25600 < 2 ^ 32 := by
+    rw [Nat.mul_comm]; omega
+  simp only [subsampled, sampleStep, registers, SurfModel.Quant.sampleRate, hd]
+  simp only [show (25600 : Nat) = 0 ↔ False from by decide, if_false, Nat.mod_eq_of_lt hlt]
+  rw [Nat.mul_comm (truncHeight h) w]
+  simp
+
+theorem subsampled_iff' (w h : Nat) (hbig : w * truncHeight h < 2 ^ 32 * 25600) :
+    subsampled w h = false ↔ w * truncHeight h < 51200 := by
+  rw [subsampled_iff w h hbig]; omega
+
 end SurfProofs.Lemmas.SixelDraw
